@@ -15,6 +15,22 @@ CHECKS = {
    note="Trusted: nothing beyond string equality. Longer strings are not covered.",
    technique=TECH+"trie of all strings over an alphabet up to a length bound, oracle = identity",
    ref="3.17"),
+
+ "C10": dict(
+   text="Explicit-state BFS over ALL histories of a 27-operation INSERT alphabet (columns / values / values_panic / values_from_panic / select_from / or_default_values*, column counts 0..3, row lengths 0..4) up to depth 6 (quick) / 8 (thorough) on the real InsertStatement, in lock-step with a plain-list reference model. Per step: Result / panic vs the contract, error counts, statement unchanged after a rejection. Per state: rendering on 3 backends x {to_string, build} parsed back by an independent parser and compared with the model (rectangularity, call order, default-values form).",
+   note="Trusted: the reference model of the documented contract (lists), the reference lexer and the 150-line INSERT parser. One genuine defect is a known finding (columns() after a source was accepted).",
+   technique=TECH+"BFS over builder-call histories with state deduplication, oracle = reference model + parse-back",
+   ref="3.10"),
+ "C12": dict(
+   text="Exhaustive enumeration of value domains through the real From/ValueType/Nullable/tuple impls: complete bool, i8, u8, i16, u16, char; all 2^32 bit patterns of f32/i32/u32 (thorough; <=3-bit grid in quick); bit-pattern grids for 64-bit types; all strings/byte strings over a 6-symbol alphabet up to length 4; boundary grids for chrono/time/uuid/decimal/json/ip/mac/vector/array types; every (source variant, target type) pair incl. Option<T>; all 3^n tuples for arity 1..12. Run in the `plain` and the `full` (hashable-value) build. Oracle: identity (bit identity for floats), NULL-of-own-variant, Err on mismatch.",
+   note="Trusted: the independent variant<->type table in the harness. 64-bit and feature-type domains are grids, not complete.",
+   technique=TECH+"complete / grid enumeration of value domains, oracle = identity",
+   ref="3.12"),
+ "C18": dict(
+   text="All ordered pairs (48 k) and all ordered triples (10.5 M) of a 219-value pool covering every Value variant (NULLs, +-0, infinities, NaNs with different payloads, subnormals, JSON with permuted keys, nested arrays, vectors with NaN/-0), every payload built twice independently; plus 13 M pairs of value tuples. Oracle: reflexive, symmetric, transitive, never equal across variants, equal payload => equal, equal => equal hash (fixed SipHash), HashSet round trip and class count.",
+   note="Trusted: std's DefaultHasher as the fixed hasher. The pool is finite; payloads outside it are not covered.",
+   technique=TECH+"all pairs and triples of a finite value pool, oracle = equivalence + hash-coherence laws",
+   ref="3.18"),
 }
 
 NOT_YET = {
